@@ -1,11 +1,13 @@
 import Driver.Sess
 import Driver.Field
+import Driver.Persist
 import Driver.Query
 import Driver.Widcode
 open Driver
 
 def sessions : List (String × Sess) := [
   ("field", FieldS.sess),
+  ("persist", PersistS.sess),
   ("query", QueryS.sess),
   ("widcode", WidcodeS.sess)
 ]
